@@ -23,7 +23,7 @@ def models(quick):
     if quick:
         return [ModelRun("C14_l2", letters=[0, 1], maxlen=2, maxn=2, ks=[1, 2], engines=eng, modes=["custom"], cdfams=FAMS, maxcs=MAXCS, invariants=INVS),
                 ModelRun("C14_l3", letters=[0, 1], maxlen=3, maxn=2, ks=[1, 2], engines=eng, modes=["custom"], cdfams=["hamlen", "lev5"], maxcs=[2, nc.INF], invariants=INVS),
-                ModelRun("C14_two", letters=[0, 1], maxlen=2, maxn=2, maxn2=1, ks=[1], engines=["symdel", "hash"], modes=["custom"], cdfams=["hamlen", "lev2", "len"], maxcs=[0, 4, nc.INF], invariants=INVS2)]
+                ModelRun("C14_two", letters=[0, 1], maxlen=2, maxn=2, maxn2=1, ks=[1, 2], engines=["symdel", "hash"], modes=["custom"], cdfams=["hamlen", "lev2", "len"], maxcs=[0, 4, nc.INF], invariants=INVS2)]
     return [ModelRun("C14_l3", letters=[0, 1], maxlen=3, maxn=2, ks=[1, 2], engines=eng, modes=["custom"], cdfams=FAMS, maxcs=MAXCS, invariants=INVS),
             ModelRun("C14_n3", letters=[0, 1], maxlen=2, maxn=3, ks=[1, 2], engines=eng, modes=["custom"], cdfams=FAMS, maxcs=MAXCS, invariants=INVS),
             ModelRun("C14_two", letters=[0, 1], maxlen=2, maxn=2, maxn2=2, ks=[1, 2], engines=["symdel", "hash"], modes=["custom"], cdfams=FAMS, maxcs=[0, 4, nc.INF], invariants=INVS2)]
@@ -40,6 +40,11 @@ def run(ctx):
         res = npx.run_model(ctx, mr, coverage=not ctx.quick)
         thin = (lambda inp: 3 if (inp["engine"] == "hash" and inp["k"] >= 2) else 1)
         npx.replay_emitted(ctx, res, [nc.AA], classify=classify, thin=thin, budget=None if ctx.quick else 60000)
+        if mr.kw.get("maxn2"):
+            # database objects in custom mode: all behaviours sharing a reference are lookups on ONE SymdelDB / LookupDB object
+            # (the distance function and both radii are arguments of each lookup; radii go up and come down again)
+            from .c03 import replay_histories
+            replay_histories(ctx, res, nc.AA, max_groups=None if ctx.quick else 1500, classify_fn=classify)
     ctx.exhaustive = True
     sessions, sid = [], 0
     sub = "ACDHIY"
